@@ -30,3 +30,33 @@ Theorem C13_separate_Y_branch_is_consistent : forall L,
   (if Rlt_dec 8 L then ((L + 16) / 116) * ((L + 16) / 116) * ((L + 16) / 116) else L / K) = g ((L + 16) / 116).
 Proof. exact y_branch_is_g. Qed.
 Print Assumptions C13_separate_Y_branch_is_consistent.
+
+(* Float closeness of Color.ToLAB to the definition (Mat/LabClose.v), for EVERY finite float32 colour
+   and positive white whose three ratios lie in [-1, 4] (the property's [-0.5, 2]^3 against D50/D65 gives
+   ratios in [-0.61, 2.43]): the result is finite and within 1e-4 (L), 4e-4 (a), 2e-4 (b) of the
+   CIE definition evaluated over the reals - inside the property's 1e-3.  math.Pow enters as a
+   variable with ONE assumption (above the junction it returns the cube root to a relative 1e-12, about
+   4500 ulp); the correctly rounded cube root satisfies it (second theorem), so the assumption is not
+   vacuous.  Everything else is Flocq: the float64 division, the branch taken on the rounded ratio
+   against the rounded constant, both branches, 116 f - 16, 500 (fx - fy), 200 (fy - fz), float32(). *)
+From Flocq Require Import Core IEEE754.BinarySingleNaN.
+From PrismV Require Import Num.F64 Mat.LabF Mat.LabClose.
+Theorem C13_to_lab_float_close : forall pow : f64 -> f64 -> f64,
+  (forall r : f64, is_finite r = true -> B2R cE < B2R r -> B2R r <= 5 ->
+     is_finite (pow r cThird) = true /\ Rabs (B2R (pow r cThird) - cbrt (B2R r)) <= / 1000000000000 * cbrt (B2R r)) ->
+  forall x y z wx wy wz : f32,
+  is_finite x = true -> is_finite y = true -> is_finite z = true ->
+  is_finite wx = true -> is_finite wy = true -> is_finite wz = true ->
+  0 < B2R wx -> 0 < B2R wy -> 0 < B2R wz ->
+  -1 <= B2R x / B2R wx <= 4 -> -1 <= B2R y / B2R wy <= 4 -> -1 <= B2R z / B2R wz <= 4 ->
+  let fx := f (B2R x / B2R wx) in let fy := f (B2R y / B2R wy) in let fz := f (B2R z / B2R wz) in
+  exists L A B : f32, to_lab pow x y z wx wy wz = (L :: A :: B :: nil)%list /\
+    is_finite L = true /\ is_finite A = true /\ is_finite B = true /\
+    Rabs (B2R L - toL fy) <= / 10000 /\ Rabs (B2R A - toA fx fy) <= 4 / 10000 /\ Rabs (B2R B - toB fy fz) <= 2 / 10000.
+Proof. exact to_lab_close. Qed.
+Print Assumptions C13_to_lab_float_close.
+Theorem C13_pow_assumption_is_satisfiable :
+  forall r : f64, is_finite r = true -> B2R cE < B2R r -> B2R r <= 5 ->
+  is_finite (pow_ideal r cThird) = true /\ Rabs (B2R (pow_ideal r cThird) - cbrt (B2R r)) <= / 1000000000000 * cbrt (B2R r).
+Proof. exact pow_assumption_satisfiable. Qed.
+Print Assumptions C13_pow_assumption_is_satisfiable.
